@@ -8,8 +8,12 @@ Open Scope list_scope.
 Open Scope Z_scope.
 
 Definition c04_prepare (i : term) : ropts * (sidx * prepared) :=
-  let o := ropts_of (gn i 1) in
-  (o, prepare (fmt_table (gn i 3)) o (profile_of (gn i 0))).
+  let t := gn i 1 in
+  let o0 := ropts_of t in
+  let p := profile_of (gn i 0) in
+  let valid := match sample_index_by_name p (o_sample_index o0) with SiOk _ => true | _ => false end in
+  let o := set_sample_index o0 (entry_sample_index (gs (gn t 18)) (gss (gn t 17)) (o_sample_index o0) valid) in
+  (o, prepare (fmt_table (gn i 3)) o p).
 
 Definition legend_of (tr : trimmed) : Z := graph_total (t_g tr).
 
@@ -43,8 +47,8 @@ Definition run_C04 (i : term) : term :=
   | SiOk _ =>
       if String.eqb form "graph" then
         TL (TS "ok" :: TZ (pr_total pr) ::
-            (if eff_call_tree o then of_tgraph (report_tree o pr) else of_igraph (report_graph o pr None)))
-      else if String.eqb form "items" then
+            (if eff_call_tree o then of_tgraph (report_tree o (rebuild o pr)) else of_igraph (report_graph o (rebuild o pr) None)))
+      else if String.eqb form "items" || String.eqb form "webtop" then
         let tr := new_trimmed_text o pr in
         TL [TS "ok"; TZ (pr_total pr); TZ (legend_of tr); TL (map of_item (text_items (t_g tr)))]
       else if String.eqb form "top" then
@@ -56,14 +60,14 @@ Definition run_C04 (i : term) : term :=
         TL [TS "ok"; TZ (legend_of tr); TZ (pr_total pr); TL (map (tree_block (t_g tr)) (g_nodes (t_g tr)))]
       else if String.eqb form "dot" then
         if eff_call_tree o
-        then let g := report_tree o pr in
+        then let g := report_tree o (rebuild o pr) in
              TL (TS "ok" :: TZ (graph_total g) :: TZ (pr_total pr) :: dot_obs (fun p => printable_name (last_ni p)) g)
-        else let g := report_graph o pr None in
+        else let g := report_graph o (rebuild o pr) None in
              TL (TS "ok" :: TZ (graph_total g) :: TZ (pr_total pr) :: dot_obs printable_name g)
       else if String.eqb form "callgrind" then
         if eff_call_tree o
-        then TL (TS "ok" :: cg_obs last_ni (report_tree o pr))
-        else TL (TS "ok" :: cg_obs (fun k : node_info => k) (report_graph o pr None))
+        then TL (TS "ok" :: cg_obs last_ni (report_tree o (rebuild o pr)))
+        else TL (TS "ok" :: cg_obs (fun k : node_info => k) (report_graph o (rebuild o pr) None))
       else if String.eqb form "traces" then
         TL [TS "ok"; TL (map (fun t : Z * list (string * bool) =>
                            TL [TZ (fst t); TL (map (fun f : string * bool => TS (with_inl (fst f) (if snd f then "(inline)" else ""))) (snd t))])
@@ -81,21 +85,24 @@ Definition total_inputs (ix : Z) (mean : bool) (p : profile) : list (Z * Z * boo
 
 (* a printed row (name, flat value, cum value) is justified by the definition: some entry with
    that printable name has exactly these values *)
+(* [if] rather than [&&]: vm_compute evaluates both arguments of andb, and the right-hand sides
+   are sums over all samples *)
 Definition row_ok (o : ropts) (ss : list (gsample node_info)) (name : string) (flat cum : Z) : bool :=
-  existsb (fun k => String.eqb (printable_name k) name &&
-                    let v := spec_nval node_info ni_eqb None ss k in
-                    (flat_value v =? flat) && (cum_value v =? cum))
+  existsb (fun k => if String.eqb (printable_name k) name
+                    then let v := spec_nval node_info ni_eqb None ss k in
+                         (flat_value v =? flat) && (cum_value v =? cum)
+                    else false)
           (all_keys node_info ss).
 
 Definition strip_inl (s : string) : string :=
   trim_suffix " (inline)" (trim_suffix " (partial-inline)" s).
 
 Definition edge_row_ok (ss : list (gsample node_info)) (a b : string) (w : Z) : bool :=
-  existsb (fun ka => String.eqb (printable_name ka) a &&
-     existsb (fun kb => String.eqb (printable_name kb) b &&
+  existsb (fun ka => if String.eqb (printable_name ka) a then
+     existsb (fun kb => if String.eqb (printable_name kb) b then
         (mean_value (wrap_i64 (edge_spec node_info ni_eqb false None ss ka kb))
-                    (wrap_i64 (edge_spec node_info ni_eqb true None ss ka kb)) =? w))
-        (all_keys node_info ss))
+                    (wrap_i64 (edge_spec node_info ni_eqb true None ss ka kb)) =? w) else false)
+        (all_keys node_info ss) else false)
      (all_keys node_info ss).
 
 Definition items_of (t : term) : list term := match gl t with TS _ :: r => r | r => r end.
@@ -134,7 +141,8 @@ Definition spec_C04 (i ob : term) : bool :=
   let form := gs (gn i 2) in
   match si with
   | SiOk ix =>
-      let ss := report_samples o pr in
+      (* entries are identified after the report's path clean-up (one application) *)
+      let ss := report_samples o (rebuild o pr) in
       let tot := total_spec (total_inputs ix (o_mean o) (profile_of (gn i 0))) in
       if negb (String.eqb (gs (gn ob 0)) "ok") then false
       else if String.eqb form "graph" then
@@ -143,7 +151,7 @@ Definition spec_C04 (i ob : term) : bool :=
          then sets_match (tree_rows_raw o ss) (items_of (gn ob 2)) &&
               sets_match (tree_edges_raw o ss) (map proj4 (items_of (gn ob 3)))
          else check_graph node_info ni_eqb None (o_drop_negative o) ss (igraph_of (gn ob 2) (gn ob 3)))
-      else if String.eqb form "items" then
+      else if String.eqb form "items" || String.eqb form "webtop" then
         (gz (gn ob 1) =? tot) &&
         forallb (fun r => row_ok o ss (gs (gn r 0)) (gz (gn r 2)) (gz (gn r 3))) (gl (gn ob 3)) &&
         sets_match (expected_rows o ss) (map (fun r => proj3 r 0 2 3) (gl (gn ob 3))) &&
